@@ -163,6 +163,13 @@ def _cases():
         out.append(("2.1", "objects", "x-unregistered-type", path, unk))
     for path in ("extensions.ntfs-ext.extension_type", "extensions.windows-pebinary-ext.extension_type"):
         out.append(("2.1", "observables", "file", path, f))
+    # marking definitions that also carry an extension (which makes definition / definition_type optional): each of them corrupted or removed
+    tlpx = dict(json.loads(stix2.v21.TLP_WHITE.serialize()), extensions={EXTDEF: {"extension_type": "property-extension", "a": 1}})
+    stx = {"type": "marking-definition", "spec_version": "2.1", "id": "marking-definition--311b2d2d-f010-4473-83ec-1edf84858f4c", "created": "2020-01-01T00:00:00.000Z",
+           "definition_type": "statement", "definition": {"statement": "s"}, "extensions": {EXTDEF: {"extension_type": "property-extension", "a": 1}}}
+    for mdoc in (tlpx, stx):
+        for path in ("definition", "definition_type", "definition." + ("tlp" if mdoc is tlpx else "statement"), "name", "created", "id"):
+            out.append(("2.1", "objects", "marking-definition", path, mdoc))
     b21 = {"type": "bundle", "id": "bundle--311b2d2d-f010-4473-83ec-1edf84858f4c", "objects": [dict(IDENT)]}
     b20 = {"type": "bundle", "id": "bundle--311b2d2d-f010-4473-83ec-1edf84858f4c", "spec_version": "2.0", "objects": [
         {"type": "tool", "id": "tool--311b2d2d-f010-4473-83ec-1edf84858f4c", "created": "2020-01-01T00:00:00.000Z", "modified": "2020-01-01T00:00:00.000Z", "name": "t", "labels": ["x"]}]}
@@ -421,6 +428,165 @@ def run_factory_case(ji, which, env):
     except Exception:  # noqa: BLE001
         return False                   # valid input is refused after a failed construction
     return after == before and refs == [{"source_name": "d", "external_id": "2"}] and marks == ["marking-definition--613f2e26-407d-48c7-9eca-b8e91df99dc9"]
+
+
+# ---- two slots of one object in relation: every pair of timestamp (integer) slots gets right-kind values in both orders
+ALLCLS = [(ver, cat, name, cls, kw) for (ver, cat, name, cls, kw) in GOOD if cat in ("objects", "observables")]
+NALL = len(ALLCLS)
+T_EARLY, T_LATE = "2019-01-01T00:00:00.000Z", "2021-01-01T00:00:00.000Z"
+
+
+def slot_relations(ci: int, allow: bool) -> bool:
+    """
+    pre: 0 <= ci < NALL and ci % NPARTS == PARTNO
+    post: _
+    """
+    ci, allow = pick(ci, NALL), pickb(allow)
+    with Native():
+        ok = run_relation_case(ci, allow)
+    V.reached()
+    return ok
+
+
+def _member_of_type(t):
+    for (ver, cat, name, cls, kw) in GOOD:
+        if ver == "2.0" and cat == "observables" and name == t and not kw.get("_valid_refs"):
+            return json.loads(cls(**kw).serialize())
+    return {"type": t}
+
+
+def run_relation_case(ci, allow):
+    """constraints that relate two properties run outside the per-property wrapper: whatever they decide, they decide it with a library error.
+    Every ordered pair of timestamp slots gets (early, late), (late, early), (equal); every ordered pair of integer slots (0, 1), (1, 0), (-1, 2**63);
+    through the constructor, parse / parse_observable, and inside a 2.0 observed-data container"""
+    ver, cat, name, cls, kw = ALLCLS[ci]
+    base = json.loads(cls(**kw).serialize())
+    props = cls._properties
+    ts = [p for p, v in props.items() if type(v).__name__ == "TimestampProperty"]
+    ints = [p for p, v in props.items() if type(v).__name__ == "IntegerProperty"]
+    cases = [(a, va, b, vb) for a in ts for b in ts if a != b for (va, vb) in ((T_EARLY, T_LATE), (T_LATE, T_EARLY), (T_LATE, T_LATE))]
+    cases += [(a, va, b, vb) for a in ints for b in ints if a != b for (va, vb) in ((0, 1), (1, 0), (-1, 2 ** 63))]
+    ok = True
+    for a, va, b, vb in cases:
+        doc = dict(base, **{a: va, b: vb})
+        vr = kw.get("_valid_refs")                  # 2.0 observables: the keys their references may name, with the types behind them
+        extra = {"_valid_refs": vr} if vr else {}
+        routes = [lambda d=doc: cls(allow_custom=allow, **dict({k: v for k, v in d.items() if k != "type" or cat == "observables"}, **extra))]
+        if cat == "observables":
+            routes.append(lambda d=doc: stix2.parse_observable(d, allow_custom=allow, version=ver, **extra))
+            if ver == "2.0":
+                members = {k: _member_of_type(t) for k, t in (vr or {}).items()} if isinstance(vr, dict) else {}
+                routes.append(lambda d=doc: stix2.v20.ObservedData(first_observed=T_EARLY, last_observed=T_EARLY, number_observed=1, objects=dict(members, **{"99": d}),
+                                                                   allow_custom=allow))
+        else:
+            routes.append(lambda d=doc: stix2.parse(d, allow_custom=allow, version=ver))
+            routes.append(lambda d=doc: stix2.parse(json.dumps(d), allow_custom=allow))
+        for r in routes:
+            try:
+                r()
+            except ALLOWED:
+                pass
+            except Exception:  # noqa: BLE001
+                ok = False
+    return ok
+
+
+# ---- stores and versioning: a refused operation raises a library error and leaves the store as it was
+STORE_JUNK = [{"id": "x"}, {"type": "x-foo"}, {"type": "x-foo", "id": "x-foo--311b2d2d-f010-4473-83ec-1edf84858f4c", "modified": "junk"}, {}, {"type": 5}, {"type": "bundle"},
+              {"type": "bundle", "objects": 5}, {"type": "bundle", "objects": [{"id": "y"}]}, {"type": "identity"}, {"type": "x-foo", "id": 5, "modified": "2020-01-01T00:00:00Z"},
+              {"type": "x-foo", "id": "x-foo--311b2d2d-f010-4473-83ec-1edf84858f4c", "modified": 5}, {"type": "x-foo", "id": ["a"]}, [{"id": "x"}], [5], 5, None, "junk", '{"id": "x"}',
+              {"type": "x-foo", "id": "x-foo--311b2d2d-f010-4473-83ec-1edf84858f4c", "modified": None}, {"type": None, "id": None}, [[{"type": "x-foo"}]]]
+
+
+def store_refusals(ji: int, which: int, allow: bool, preload: bool) -> bool:
+    """
+    pre: 0 <= ji < len(STORE_JUNK) and 0 <= which <= 3
+    post: _
+    """
+    ji, which, allow, preload = pick(ji, len(STORE_JUNK)), pick(which, 4), pickb(allow), pickb(preload)
+    with Native():
+        ok = run_store_refusal(ji, which, allow, preload)
+    V.reached()
+    return ok
+
+
+def _store_state(store):
+    data = getattr(store, "_data", None)
+    if data is None:
+        data = store.source._data
+    out = {}
+    for k, v in data.items():
+        out[k] = sorted(str(m) for m in v.all_versions) if hasattr(v, "all_versions") else "single"
+    return out
+
+
+def run_store_refusal(ji, which, allow, preload):
+    from stix2.datastore.memory import MemorySink, MemorySource, MemoryStore
+    from stix2.environment import Environment
+    junk = copy.deepcopy(STORE_JUNK[ji])
+    store = MemoryStore(allow_custom=allow)
+    if preload:
+        store.add(dict(IDENT))
+    before = _store_state(store)
+    try:
+        if which == 0:
+            store.add(junk)
+        elif which == 1:
+            store.sink.add(junk)
+        elif which == 2:
+            Environment(store=store).add(junk)
+        else:
+            MemorySource(stix_data=junk, allow_custom=allow)
+    except ALLOWED:
+        pass
+    except Exception:  # noqa: BLE001
+        return False
+    else:
+        return True                           # accepted (a dictionary of an unregistered type, say): nothing to compare
+    after = _store_state(store)
+    try:
+        str(store.source._data), repr(store.source._data)
+    except Exception:  # noqa: BLE001
+        return False                          # the refused addition left something behind that cannot even be printed
+    return after == before
+
+
+VERSION_JUNK = [("created_by_ref", "identity--311b2d2d-f010-4473-83ec-1edf84858f4c"), ("created_by_ref", None), ("created_by_ref", 5), ("id", None), ("created", []),
+                ("type", {"a": 1}), ("modified", 5), ("modified", None), ("modified", "junk"), ("modified", [1]), ("revoked", "x"), ("name", None), ("name", {"{x}": 1}),
+                ("granular_markings", [{"selectors": [5]}]), ("object_marking_refs", 5), ("extensions", 5), ("custom_properties", 5), ("custom_properties", {"id": 5}),
+                ("allow_custom", 5), ("x_foo", None), ("spec_version", "2.0"), ("confidence", 10 ** 400), ("labels", [None])]
+
+
+def versioning_refusals(vi: int, form: int, op: int) -> bool:
+    """
+    pre: 0 <= vi < len(VERSION_JUNK) and 0 <= form <= 3 and 0 <= op <= 1
+    post: _
+    """
+    vi, form, op = pick(vi, len(VERSION_JUNK)), pick(form, 4), pick(op, 2)
+    with Native():
+        ok = run_version_refusal(vi, form, op)
+    V.reached()
+    return ok
+
+
+def run_version_refusal(vi, form, op):
+    """new_version / revoke with a change set of any JSON kind, naming present or ABSENT properties, on objects and dictionaries of both versions"""
+    from stix2 import versioning
+    name, val = VERSION_JUNK[vi]
+    d21 = dict(IDENT)
+    d20 = {"type": "tool", "id": "tool--311b2d2d-f010-4473-83ec-1edf84858f4c", "created": "2020-01-01T00:00:00.000Z", "modified": "2020-01-01T00:00:00.000Z", "name": "t",
+           "labels": ["x"]}
+    data = [lambda: stix2.parse(d21), lambda: dict(d21), lambda: stix2.parse(d20, version="2.0"), lambda: dict(d20)][form]()
+    try:
+        if op == 0:
+            versioning.new_version(data, **{name: copy.deepcopy(val)})
+        else:
+            versioning.revoke(dict(data, **{name: copy.deepcopy(val)}) if isinstance(data, dict) else data)
+    except ALLOWED:
+        pass
+    except Exception:  # noqa: BLE001
+        return False
+    return True
 
 
 # ---- an ordinary Python subclass of a library class (the documented way to add behaviour) constructs and refuses like its base
